@@ -54,7 +54,9 @@ def _ConvertFunctionType(ft: LinearIR.FunctionType) -> WebAssembly.FunctionType:
     for argType in ft.Arguments.values():
         argTypes.append(_ConvertType(argType))
 
-    resultTypes.append(_ConvertType(ft.ReturnType))
+    # A function returning void has no results
+    if not ft.ReturnType.IsVoid():
+        resultTypes.append(_ConvertType(ft.ReturnType))
 
     return WebAssembly.FunctionType(argTypes, resultTypes)
 
@@ -220,6 +222,11 @@ class GenerateWasmVisitor(Visitor.DefaultVisitor):
         functionType = _ConvertFunctionType(
             cast(LinearIR.FunctionType, function.Type)
         )
+
+        # Every function needs an entry in the type section and in the function
+        # section (the export and the code body refer to the function index)
+        typeIndex = ctx.Module.AddFunctionType(functionType)
+        ctx.Module.AddFunction(typeIndex)
 
         # Check if function is exported - for now assume yes
 
